@@ -23,7 +23,7 @@ struct Monitor {
     writer_with_reader: AtomicU64,
 }
 
-struct Outcome { steps: usize, two_writers: u64, writer_with_reader: u64, disagreement: Option<String>, finished: bool, entries_left: usize, stuck: bool }
+struct Outcome { interior: u64, probes: u64, non_atomic: Option<String>, steps: usize, two_writers: u64, writer_with_reader: u64, disagreement: Option<String>, finished: bool, entries_left: usize, stuck: bool }
 
 fn run_case(ctx: &Ctx, progs: &[Vec<Op>], forced: Option<&[usize]>, rng: &mut Rng, model: &mut Model) -> Outcome {
     let _ = ctx;
@@ -37,13 +37,16 @@ fn run_case(ctx: &Ctx, progs: &[Vec<Op>], forced: Option<&[usize]>, rng: &mut Rn
     let n = progs.len();
     let sched = Sched::new(n);
     let mut handles = vec![];
+    let cur_page: Arc<Vec<AtomicI64>> = Arc::new((0..n).map(|_| AtomicI64::new(-1)).collect());
     for (tid, prog) in progs.iter().enumerate() {
         let mgr = mgr.clone();
         let mon = mon.clone();
         let prog = prog.clone();
+        let cur_page = cur_page.clone();
         handles.push(sched.spawn(tid, move || {
             for (k, op) in prog.iter().enumerate() {
                 if k > 0 { turdb::verif_hooks::yield_point("idle"); }
+                cur_page[tid].store(match op { Op::Write(p) | Op::Read(p) => *p as i64 }, Ordering::SeqCst);
                 match op {
                     Op::Write(p) => {
                         let g = mgr.page_write(1, *p);
@@ -71,9 +74,10 @@ fn run_case(ctx: &Ctx, progs: &[Vec<Op>], forced: Option<&[usize]>, rng: &mut Rn
     sched.settle(Duration::from_secs(5));
     let r = model.ask(&format!("init 1 {}", progs_sx(progs)));
     assert_eq!(r, "ok");
-    let mut out = Outcome { steps: 0, two_writers: 0, writer_with_reader: 0, disagreement: None, finished: false, entries_left: 0, stuck: false };
+    let mut out = Outcome { interior: 0, probes: 0, non_atomic: None, steps: 0, two_writers: 0, writer_with_reader: 0, disagreement: None, finished: false, entries_left: 0, stuck: false };
     let mut waiting: Vec<bool> = vec![false; n];
     let mut fi = 0;
+    let mut carried: Option<(usize, StepResult)> = None;
     while out.steps < 3000 {
         // threads that were parked inside lock.read()/write() and have since been granted the lock
         // by parking_lot: mirror the wake-up in the model (it must be enabled there)
@@ -90,7 +94,7 @@ fn run_case(ctx: &Ctx, progs: &[Vec<Op>], forced: Option<&[usize]>, rng: &mut Rn
             }
         }
         let runnable = sched.runnable();
-        if runnable.is_empty() {
+        if runnable.is_empty() && carried.is_none() {
             if waiting.iter().any(|b| *b) {
                 // only waiters are left: the lock must hand over to one of them
                 let t0 = std::time::Instant::now();
@@ -100,12 +104,39 @@ fn run_case(ctx: &Ctx, progs: &[Vec<Op>], forced: Option<&[usize]>, rng: &mut Rn
             }
             break;
         }
-        let tid = match forced {
-            Some(f) if fi < f.len() => { let t = f[fi]; fi += 1; if !runnable.contains(&t) { continue; } t }
-            _ => *rng.pick(&runnable),
+        let (tid, mut res) = if let Some(c) = carried.take() { c } else {
+            let tid = match forced {
+                Some(f) if fi < f.len() => { let t = f[fi]; fi += 1; if !runnable.contains(&t) { continue; } t }
+                _ => *rng.pick(&runnable),
+            };
+            let will_block = model.ask(&format!("willblock {tid}")) == "1";
+            (tid, sched.step(tid, if will_block { Duration::from_millis(60) } else { Duration::from_secs(10) }))
         };
-        let will_block = model.ask(&format!("willblock {tid}")) == "1";
-        let mut res = sched.step(tid, if will_block { Duration::from_millis(60) } else { Duration::from_secs(10) });
+        // interior of the get_or_create critical section (the thread found the entry and is about to
+        // bump ref_count): the model treats lookup + increment as ONE step, which is only right if the
+        // shard mutex is held here. Atomicity probe: another thread whose next step needs the same
+        // mutex must not be able to complete that step while this one is parked inside.
+        let mut probe_b: Option<usize> = None;
+        if res == StepResult::Parked("pagelock.entry.acquire") {
+            out.interior += 1;
+            let st = sched.states();
+            let cands: Vec<usize> = (0..n).filter(|b| *b != tid
+                && matches!(&st[*b], TState::Parked(s) if *s == "pagelock.get_or_create" || *s == "pagelock.cleanup.map_lock")
+                && cur_page[*b].load(Ordering::SeqCst) == cur_page[tid].load(Ordering::SeqCst)).collect();
+            if forced.is_none() && !cands.is_empty() && rng.chance(2, 3) {
+                let b = *rng.pick(&cands);
+                out.probes += 1;
+                let bsite = format!("{:?}", st[b]);
+                match sched.step(b, Duration::from_millis(50)) {
+                    StepResult::Blocked => probe_b = Some(b),
+                    rb => {
+                        out.non_atomic = Some(format!("step {}: thread {tid} is parked inside get_or_create between the map lookup and the ref_count increment, yet thread {b} ({bsite}) completed its own map critical section ({rb:?}): lookup+increment is not atomic with respect to the shard mutex", out.steps));
+                    }
+                }
+            }
+            if out.non_atomic.is_some() { break; }
+            res = sched.step(tid, Duration::from_secs(10));
+        }
         // the unlock site sits between `hold` and `release`: it belongs to the same model step
         if let StepResult::Parked(site) = res {
             if site == "pagelock.unlock_read" || site == "pagelock.unlock_write" { res = sched.step(tid, Duration::from_secs(10)); }
@@ -143,6 +174,7 @@ fn run_case(ctx: &Ctx, progs: &[Vec<Op>], forced: Option<&[usize]>, rng: &mut Rn
             }
             std::thread::sleep(Duration::from_millis(4));
         }
+        if let Some(b) = probe_b { carried = Some((b, sched.wait_landed(b, Duration::from_secs(10)))); continue; }
         // number of entries in the lock table
         if let Some(ms) = m.split(" map ").nth(1).and_then(|r| r.split(' ').next()).and_then(|x| x.parse::<usize>().ok()) {
             let real = mgr.verif_page_entry_count();
@@ -150,6 +182,11 @@ fn run_case(ctx: &Ctx, progs: &[Vec<Op>], forced: Option<&[usize]>, rng: &mut Rn
                 out.disagreement = Some(format!("step {}: lock table has {real} entries, model has {ms} ({m})", out.steps));
             }
         }
+    }
+    if out.non_atomic.is_some() {
+        // the model no longer applies: keep scheduling randomly (every hook site is now an ordinary
+        // yield point) and let the occupancy monitors look for an overlap
+        free_run(&sched, rng, &mut out.steps);
     }
     out.finished = sched.all_finished();
     sched.shutdown();
@@ -160,6 +197,106 @@ fn run_case(ctx: &Ctx, progs: &[Vec<Op>], forced: Option<&[usize]>, rng: &mut Rn
     out
 }
 
+fn free_run(sched: &Sched, rng: &mut Rng, steps: &mut usize) {
+    let t0 = std::time::Instant::now();
+    let mut idle_since = std::time::Instant::now();
+    while t0.elapsed() < Duration::from_secs(20) {
+        let r = sched.runnable();
+        if r.is_empty() {
+            if sched.all_finished() || idle_since.elapsed() > Duration::from_secs(2) { break; }
+            std::thread::sleep(Duration::from_millis(2));
+            continue;
+        }
+        idle_since = std::time::Instant::now();
+        let t = *rng.pick(&r);
+        let _ = sched.step(t, Duration::from_millis(80));
+        *steps += 1;
+    }
+}
+
+fn run_until_site(sched: &Sched, tid: usize, site: &str, each: Duration) -> StepResult {
+    let mut last = StepResult::NotRunnable;
+    for _ in 0..40 {
+        last = sched.step(tid, each);
+        match &last { StepResult::Parked(s) if *s != site => {} _ => return last }
+    }
+    last
+}
+
+struct Directed { non_atomic: Option<String>, two_writers: u64, writer_with_reader: u64, note: String, finished: bool }
+
+/// Directed atomicity scenario for `get_or_create`: T0 holds the write lock of page 7; T1 runs into
+/// get_or_create, finds T0's entry and is parked just before the ref_count increment; T0 then drops
+/// its guard. On code where lookup+increment happen under the shard mutex T0 blocks on that mutex
+/// in try_cleanup until T1 goes on. If T0 can finish, the entry T1 is about to lock has left the
+/// table: T1 then locks the orphan and a third thread locks a fresh entry for the same page.
+fn run_directed(third_reads: bool, rng: &mut Rng) -> Directed {
+    let mgr = Arc::new(PageLockManager::new());
+    let writers = Arc::new(AtomicI64::new(0));
+    let readers = Arc::new(AtomicI64::new(0));
+    let two_writers = Arc::new(AtomicU64::new(0));
+    let wwr = Arc::new(AtomicU64::new(0));
+    let sched = Sched::new(3);
+    let mut handles = vec![];
+    for tid in 0..3usize {
+        let (mgr, writers, readers, two_writers, wwr) = (mgr.clone(), writers.clone(), readers.clone(), two_writers.clone(), wwr.clone());
+        handles.push(sched.spawn(tid, move || {
+            if tid == 2 && third_reads {
+                let g = mgr.page_read(1, 7);
+                readers.fetch_add(1, Ordering::SeqCst);
+                if writers.load(Ordering::SeqCst) != 0 { wwr.fetch_add(1, Ordering::SeqCst); }
+                turdb::verif_hooks::yield_point("hold");
+                readers.fetch_sub(1, Ordering::SeqCst);
+                drop(g);
+            } else {
+                let g = mgr.page_write(1, 7);
+                if writers.fetch_add(1, Ordering::SeqCst) != 0 { two_writers.fetch_add(1, Ordering::SeqCst); }
+                if readers.load(Ordering::SeqCst) != 0 { wwr.fetch_add(1, Ordering::SeqCst); }
+                turdb::verif_hooks::yield_point("hold");
+                writers.fetch_sub(1, Ordering::SeqCst);
+                drop(g);
+            }
+        }));
+    }
+    sched.settle(Duration::from_secs(5));
+    let mut d = Directed { non_atomic: None, two_writers: 0, writer_with_reader: 0, note: String::new(), finished: false };
+    let r0 = run_until_site(&sched, 0, "hold", Duration::from_secs(10));
+    let r1 = run_until_site(&sched, 1, "pagelock.entry.acquire", Duration::from_millis(300));
+    d.note = format!("T0 {r0:?}; T1 {r1:?}");
+    if r0 == StepResult::Parked("hold") && r1 == StepResult::Parked("pagelock.entry.acquire") {
+        // T0 drops its guard: force_unlock, release (1 -> 0), cleanup under the map lock
+        let mut last = StepResult::NotRunnable;
+        for _ in 0..20 {
+            last = sched.step(0, Duration::from_millis(150));
+            if !matches!(last, StepResult::Parked(_)) { break; }
+        }
+        d.note.push_str(&format!("; T0 drop -> {last:?}"));
+        if last == StepResult::Finished {
+            d.non_atomic = Some("T1 was parked inside get_or_create between finding T0's entry and incrementing its ref_count, and T0 completed try_cleanup (which takes the shard mutex) meanwhile: lookup+increment is not atomic with respect to the shard mutex".into());
+            let a = run_until_site(&sched, 1, "hold", Duration::from_millis(300));
+            let b = run_until_site(&sched, 2, "hold", Duration::from_millis(300));
+            d.note.push_str(&format!("; T1 -> {a:?}; T2 -> {b:?}"));
+            std::thread::sleep(Duration::from_millis(20));
+            d.two_writers = two_writers.load(Ordering::SeqCst);
+            d.writer_with_reader = wwr.load(Ordering::SeqCst);
+        } else {
+            let a = sched.step(1, Duration::from_secs(10));
+            let b = sched.wait_landed(0, Duration::from_secs(10));
+            d.note.push_str(&format!("; T1 goes on -> {a:?}; T0 then -> {b:?}"));
+        }
+    } else {
+        d.note.push_str("; the scenario could not be set up (hook site pagelock.entry.acquire not reached)");
+    }
+    let mut steps = 0;
+    free_run(&sched, rng, &mut steps);
+    d.finished = sched.all_finished();
+    sched.shutdown();
+    for h in handles { let _ = h.join(); }
+    d.two_writers = d.two_writers.max(two_writers.load(Ordering::SeqCst));
+    d.writer_with_reader = d.writer_with_reader.max(wwr.load(Ordering::SeqCst));
+    d
+}
+
 pub fn run(ctx: &Ctx) -> Report {
     let mut rep = Report::new(
         "pagelocks",
@@ -167,7 +304,7 @@ pub fn run(ctx: &Ctx) -> Report {
          yield points of page_locks.rs (get_or_create, rw acquire, force_unlock, entry.release, cleanup under the map lock) by the \
          forced Lean counterexample schedule or a seeded random scheduler; the model predicts whether an acquire must wait; a predicted wait is confirmed by a 60 ms no-progress window \
          on the real thread, and a later hand-over by the real RwLock must be an enabled wake-up in the model; after every step the parked site and the lock-table size are compared \
-         with the model; monitors count simultaneous writers / writer+reader on the real lock manager. \
+         with the model; monitors count simultaneous writers / writer+reader on the real lock manager. Atomicity of the model's get_or_create step: a hook site inside PageLockEntry::acquire parks the thread between map lookup and ref_count increment; a directed scenario (holder drops its guard meanwhile) and random probes check that no thread needing the shard mutex can complete its step then. \
          non-trivial = distinct case with >= 2 threads touching the same page with at least one writer",
     );
     let mut rng = Rng::new(ctx.seed);
@@ -189,6 +326,20 @@ pub fn run(ctx: &Ctx) -> Report {
         }
     }
 
+    // directed atomicity scenarios for get_or_create (third thread writes / reads)
+    for third_reads in [false, true] {
+        let d = run_directed(third_reads, &mut rng);
+        let case = format!("directed get_or_create atomicity: T0 holds w7; T1 page_write(7) parked before ref_count increment; T0 drops; T2 {}", if third_reads { "page_read(7)" } else { "page_write(7)" });
+        rep.case(Some(&case));
+        rep.count("directed_atomicity");
+        rep.sample(format!("{case} -> {} two_writers={} writer_with_reader={} finished={}", d.note, d.two_writers, d.writer_with_reader, d.finished));
+        if let Some(na) = &d.non_atomic { rep.disagree(case.clone(), format!("{na} ({})", d.note), "pagelock-atomicity".into()); }
+        if d.note.contains("could not be set up") { rep.disagree(case.clone(), d.note.clone(), "pagelock-atomicity-setup".into()); }
+        if d.two_writers > 0 { rep.oracle_fail(case.clone(), format!("two threads hold the write lock of page 7 at the same time ({})", d.note), "pagelock:two-writers:get-or-create-not-atomic".into()); }
+        if d.writer_with_reader > 0 { rep.oracle_fail(case.clone(), format!("a reader and a writer hold page 7 at the same time ({})", d.note), "pagelock:writer-with-reader:get-or-create-not-atomic".into()); }
+        if !d.finished { rep.oracle_fail(case.clone(), format!("threads did not finish ({})", d.note), "pagelock:stuck-acquire".into()); }
+    }
+
     let ncases = if ctx.thorough { 3000 } else { 250 };
     for _ in 0..ncases {
         let nthreads = 2 + rng.below(3) as usize;
@@ -206,9 +357,13 @@ pub fn run(ctx: &Ctx) -> Report {
         rep.count_n("granted_steps", o.steps as u64);
         if o.stuck { rep.count("stuck"); }
         if rep.evaluations % 41 == 0 { rep.sample(format!("{case} -> steps {} finished {}", o.steps, o.finished)); }
+        rep.count_n("interior_parks", o.interior);
+        rep.count_n("atomicity_probes", o.probes);
         if let Some(d) = o.disagreement { rep.disagree(case.clone(), d, "pagelock-step".into()); }
-        if o.two_writers > 0 { rep.oracle_fail(case.clone(), format!("two simultaneous writers ({}x)", o.two_writers), "pagelock:two-writers:stale-cleanup".into()); }
-        if o.writer_with_reader > 0 { rep.oracle_fail(case.clone(), format!("writer coexists with reader ({}x)", o.writer_with_reader), "pagelock:writer-with-reader:stale-cleanup".into()); }
+        let why = if o.non_atomic.is_some() { "get-or-create-not-atomic" } else { "stale-cleanup" };
+        if let Some(na) = o.non_atomic { rep.disagree(case.clone(), na, "pagelock-atomicity".into()); }
+        if o.two_writers > 0 { rep.oracle_fail(case.clone(), format!("two simultaneous writers ({}x)", o.two_writers), format!("pagelock:two-writers:{why}")); }
+        if o.writer_with_reader > 0 { rep.oracle_fail(case.clone(), format!("writer coexists with reader ({}x)", o.writer_with_reader), format!("pagelock:writer-with-reader:{why}")); }
         if o.stuck { rep.oracle_fail(case.clone(), "a thread stayed blocked although every other thread finished".into(), "pagelock:stuck-acquire".into()); }
         if o.finished && o.entries_left != 0 { rep.oracle_fail(case, format!("{} lock entries left after all guards were dropped", o.entries_left), "pagelock:table-not-empty".into()); }
     }
